@@ -594,7 +594,7 @@ class GibbsTempo(BaseAPIClass):
         self._backend_instance = TIBaseBackend(
                 dim,
                 epsrel,
-                propagators(1)[0],
+                propagators(1)[0].T,
                 coeffs,
                 operators,
                 max_step=max_step,
